@@ -328,11 +328,6 @@ impl Interpreter {
         ensures (match st_lookup(self.st@, *name) { Some(v) => r == Some(&v), None => r is None })
     { unimplemented!() }
 }
-// derived Clone on Instruction (Arc clones share the payload): the clone is the same instruction
-impl Clone for Instruction {
-    #[verifier::external_body]
-    fn clone(&self) -> (r: Self) ensures r == *self { unimplemented!() }
-}
 // LocalVariables::get (HashMap lookup through the layers of the recreate environment: not verified)
 pub uninterp spec fn lv_lookup(s: int, name: Name) -> Option<LocalVariable>;
 impl LocalVariables {
@@ -340,10 +335,6 @@ impl LocalVariables {
     pub fn get(&self, name: &Name) -> (r: Option<&LocalVariable>)
         ensures (match lv_lookup(self.st@, *name) { Some(v) => r == Some(&v), None => r is None })
     { unimplemented!() }
-}
-impl Clone for LocalVariable {
-    #[verifier::external_body]
-    fn clone(&self) -> (r: Self) ensures r == *self { unimplemented!() }
 }
 // std: Option::map_or_else calls `default` on None and `f` on Some(x)
 pub assume_specification<T, U, D: FnOnce() -> U, F: FnOnce(T) -> U>[ Option::<T>::map_or_else ](o: Option<T>, default: D, f: F) -> (r: U)
